@@ -177,7 +177,10 @@ func (a rtActivity) changed(b rtActivity) []string {
 type RTConfig struct {
 	Upstream   string            `json:"upstream"` // none | P | T | S | pac
 	UserInfo   string            `json:"userinfo,omitempty"`
-	PAC        map[string]string `json:"pac,omitempty"` // host letter (A,B,L,*) -> result template; @P @Q @T @S are replaced by host:port
+	// PAC: condition -> result template (@P @Q @T @S are replaced by host:port). Conditions, in the order the script
+	// tests them: "alt" (the URL's path contains /alt), "A80" / "A443" (a.test on that port, explicit or implied by the
+	// scheme), "A" "B" "L" (the host, any port), "*" (otherwise).
+	PAC        map[string]string `json:"pac,omitempty"`
 	DirectDom  []string          `json:"direct_domains,omitempty"`
 	Localhost  string            `json:"localhost"` // allow | direct
 	ConnectTo  []string          `json:"connect_to,omitempty"` // templates with @X.host @X.port
@@ -190,6 +193,7 @@ type RTReq struct {
 	Kind    string  `json:"kind"` // http | connect
 	Method  string  `json:"method"`
 	Headers []Field `json:"headers,omitempty"`
+	Alt     bool    `json:"alt,omitempty"` // the request path is /plain/alt (a PAC script may decide on it)
 }
 
 type RTCase struct {
@@ -240,6 +244,17 @@ func (e *rtEnv) pacScript(m map[string]string) string {
 		}
 		return fmt.Sprintf("return %q;", e.subst(r))
 	}
+	b.WriteString(`  var pm = /^[a-z]*:?\/\/[^\/:]+:(\d+)/.exec(url);
+  var port = pm ? pm[1] : (url.indexOf("https:") == 0 ? "443" : "80");
+`)
+	if r, ok := m["alt"]; ok {
+		fmt.Fprintf(&b, "  if (url.indexOf(\"/alt\") >= 0) { %s }\n", ret(r))
+	}
+	for _, l := range []string{"A80", "A443"} {
+		if r, ok := m[l]; ok {
+			fmt.Fprintf(&b, "  if (host == \"a.test\" && port == %q) { %s }\n", l[1:], ret(r))
+		}
+	}
 	for _, l := range []string{"A", "B", "L"} {
 		if r, ok := m[l]; ok {
 			h, _ := e.hostOf(l)
@@ -250,6 +265,20 @@ func (e *rtEnv) pacScript(m map[string]string) string {
 	return b.String()
 }
 
+// pacResultFor is what the generated script returns for the request's URL.
+func pacResultFor(cfg RTConfig, r RTReq) string {
+	if res, ok := cfg.PAC["alt"]; ok && r.Alt && r.Kind != "connect" { // the URL of a CONNECT has no path
+		return res
+	}
+	if res, ok := cfg.PAC[r.Host]; ok && (r.Host == "A80" || r.Host == "A443") {
+		return res
+	}
+	if res, ok := cfg.PAC[strings.TrimRight(r.Host, "0123456789")]; ok {
+		return res
+	}
+	return cfg.PAC["*"]
+}
+
 func genRTConfig(t *rapid.T, withCreds bool) RTConfig {
 	c := RTConfig{Upstream: rapid.SampledFrom([]string{"none", "P", "P", "T", "S", "pac", "pac", "pac"}).Draw(t, "upstream")}
 	if c.Upstream == "pac" {
@@ -257,6 +286,12 @@ func genRTConfig(t *rapid.T, withCreds bool) RTConfig {
 		for _, l := range []string{"A", "B", "L"} {
 			if rapid.IntRange(0, 2).Draw(t, "pachas") != 0 {
 				c.PAC[l] = rapid.SampledFrom(pacResults).Draw(t, "pacres")
+			}
+		}
+		// conditions on the rest of the URL: the path, and the port (explicit or implied by the scheme)
+		for _, l := range []string{"alt", "A80", "A443"} {
+			if rapid.IntRange(0, 2).Draw(t, "pacurl") == 0 {
+				c.PAC[l] = rapid.SampledFrom(pacResults).Draw(t, "pacurlres")
 			}
 		}
 	}
@@ -320,6 +355,7 @@ func genRTReqs(t *rapid.T, withCreds bool, mitm bool) []RTReq {
 	for i := 0; i < n; i++ {
 		r := RTReq{Host: rapid.SampledFrom([]string{"A", "A", "B", "L"}).Draw(t, "host"), Kind: rapid.SampledFrom([]string{"http", "http", "connect"}).Draw(t, "kind"),
 			Method: rapid.SampledFrom([]string{"GET", "POST", "HEAD"}).Draw(t, "method")}
+		r.Alt = rapid.IntRange(0, 2).Draw(t, "alt") == 0
 		{
 			// targets whose port is implied by the scheme: http://a.test/ and (inside MITM) https://a.test/
 			switch rapid.IntRange(0, 5).Draw(t, "defport") {
@@ -416,10 +452,7 @@ func (e *rtEnv) refRoute(cfg RTConfig, r RTReq) route {
 		case "S":
 			x.hopKind, x.hopAddr = "socks5", e.s.Addr
 		case "pac":
-			res, ok := cfg.PAC[strings.TrimRight(r.Host, "0123456789")]
-			if !ok {
-				res = cfg.PAC["*"]
-			}
+			res := pacResultFor(cfg, r)
 			x.why = "PAC result " + res
 			if strings.HasPrefix(res, "@") && !strings.HasPrefix(res, "@P") && !strings.HasPrefix(res, "@Q") {
 				x.fail = true // throwing script / non-string result
@@ -552,6 +585,10 @@ func (e *rtEnv) rtExchange(px *ProxyInst, r RTReq, vid string) rtObs {
 		hdr += "Content-Length: 2\r\n"
 		body = "hi"
 	}
+	path := "/plain"
+	if r.Alt {
+		path = "/plain/alt"
+	}
 	urlHost := target
 	if origin.Port == "80" {
 		urlHost = host // the port is implied by the scheme
@@ -567,7 +604,7 @@ func (e *rtEnv) rtExchange(px *ProxyInst, r RTReq, vid string) rtObs {
 			if err := t.Handshake(); err != nil {
 				o.err = fmt.Errorf("MITM handshake: %w", err)
 			} else {
-				fmt.Fprintf(t, "%s /plain HTTP/1.1\r\nHost: %s\r\nX-Vid: %s\r\n%s\r\n%s", r.Method, host, vid, hdr, body)
+				fmt.Fprintf(t, "%s %s HTTP/1.1\r\nHost: %s\r\nX-Vid: %s\r\n%s\r\n%s", r.Method, path, host, vid, hdr, body)
 				m2, err := ReadResponse(bufio.NewReader(t), r.Method)
 				if err != nil {
 					o.err = err
@@ -606,7 +643,7 @@ func (e *rtEnv) rtExchange(px *ProxyInst, r RTReq, vid string) rtObs {
 			}
 		}
 	} else {
-		fmt.Fprintf(tc, "%s http://%s/plain HTTP/1.1\r\nHost: %s\r\nX-Vid: %s\r\n%s\r\n%s", r.Method, urlHost, urlHost, vid, hdr, body)
+		fmt.Fprintf(tc, "%s http://%s%s HTTP/1.1\r\nHost: %s\r\nX-Vid: %s\r\n%s\r\n%s", r.Method, urlHost, path, urlHost, vid, hdr, body)
 		m, err := ReadResponse(br, r.Method)
 		if err != nil {
 			o.err = err
@@ -685,10 +722,7 @@ func judgeRoute(e *rtEnv, cfg RTConfig, r RTReq, i int, x route, o rtObs) (fails
 	_, origin := e.hostOf(r.Host)
 	key := func(clause string) string {
 		if cfg.Upstream == "pac" {
-			res, ok := cfg.PAC[strings.TrimRight(r.Host, "0123456789")]
-			if !ok {
-				res = cfg.PAC["*"]
-			}
+			res := pacResultFor(cfg, r)
 			if kw, _, _ := strings.Cut(res, " "); (kw == "SOCKS" || kw == "SOCKS4") && r.Kind == "http" {
 				return "C05:pac-socks4-on-plain-http:" + clause
 			}
